@@ -79,6 +79,11 @@ def candidates(m):
             if n[0] == 'cho':
                 for c in n[1]:
                     yield 'pick_branch', replace_at(m, p, ('seq', [c], n[2], n[3]))
+            # the other compositor over the same particles (choice -> sequence needs MapAndSum: length x max <= base max)
+            if len(n[1]) > 1:
+                other = 'seq' if n[0] == 'cho' else 'cho'
+                yield 'compositor:%s_to_%s' % (n[0], other), replace_at(m, p, (other, n[1], n[2], n[3]))
+                yield 'compositor:%s_to_%s_once' % (n[0], other), replace_at(m, p, (other, n[1], 1, 1))
         else:
             for leaf in 'abcwWlL':
                 if leaf != n[1]:
@@ -102,6 +107,11 @@ def pair_classes(ver, b, d, op):
     if ver == '11' and op in ('occ:root_cho', 'occ:inner_cho', 'occ:root_seq', 'occ:inner_seq', 'prohibit:root_cho',
                               'prohibit:inner_cho', 'prohibit:root_seq', 'prohibit:inner_seq'):
         cl.append('xsd11-group-occurrence')
+    if op.startswith('compositor:cho_to_seq') and any(
+            n[0] == 'cho' and any(c[3] is None or c[3] > 1 for c in n[1]) for _, n in nodes_of(b)):
+        cl.append('mapandsum-counts-elements')
+    if ver == '11' and op.startswith('compositor:seq_to_cho'):
+        cl.append('xsd11-choice-restricts-sequence')
     if op.startswith('prohibit:') and op.endswith('_leaf'):
         # which leaf was prohibited: the one whose occurrence differs
         for (p1, n1), (p2, n2) in zip(nodes_of(b), nodes_of(d)):
@@ -314,6 +324,8 @@ def shards(tier, seed):
         for k in range(4):
             out.append(('scope', ver, k, tier, seed))
         out.append(('wildpairs', ver, tier, seed))
+        for k in range(2):
+            out.append(('compositor', ver, k, tier, seed))
         out.append(('facets', ver, tier, seed))
         out.append(('attrs', ver, tier, seed))
         out.append(('redefine', ver, tier, seed))
@@ -340,6 +352,26 @@ def run_shard(desc):
                     for r in judge_content(ver, b, d, st, False, op):
                         core.report(st, PROPERTY, r)
         st.sample({'ver': ver, 'bases from': 'small scope, depth 2', 'example': cm.show(pool[len(pool) // 3])})
+        return st
+    if desc[0] == 'compositor':
+        # exhaustive: a root choice / sequence of 2-3 distinct element leaves x group occurrence x leaf optionality,
+        # re-declared with the other compositor (same occurrence, and once)
+        _, ver, k, tier, seed = desc
+        import itertools as _it
+        n = 0
+        for names in [p for r in (2, 3) for p in _it.permutations('abc', r)]:
+            for locc in _it.product([(1, 1), (0, 1)], repeat=len(names)):
+                for gocc in cm.OCC5 + [(1, 2), (2, 2)]:
+                    for comp in ('cho', 'seq'):
+                        n += 1
+                        if n % 2 != k:
+                            continue
+                        b = (comp, [('e', nm) + oc for nm, oc in zip(names, locc)], gocc[0], gocc[1])
+                        for op, d in candidates(b):
+                            if op.startswith('compositor:'):
+                                for r in judge_content(ver, b, d, st, False, op):
+                                    core.report(st, PROPERTY, r)
+        st.sample({'ver': ver, 'compositor swaps': 'all choices / sequences of 2-3 distinct leaves x 7 group occurrences x leaf optionality'})
         return st
     if desc[0] == 'wildpairs':
         # every ordered pair of wildcard kinds x occurrence pairs, alone and next to an element
